@@ -595,6 +595,15 @@ func (h *Hist) randomEvent() string {
 			}
 		}
 		h.pods = keep
+		if r.chance(40) {
+			// … while another node of the group is under the no-delete annotation
+			if n := pickNode(); n != nil && !marked[n.Name] {
+				n.Annotations[noDeleteKey] = "true"
+			}
+		}
+		if r.chance(50) {
+			h.nextFaultAt = r.rng(1, k) // the cloud refuses one of the terminations of the batch
+		}
 		return "force-taint-burst"
 	}
 	if focus == "churn" && r.chance(20) {
@@ -950,6 +959,10 @@ func (h *Hist) runHistory(scans int) (bool, string) {
 			if h.r.chance(10) {
 				faults[0] = true // the refresh itself (costs 5 s of real sleep per retry)
 			}
+		}
+		if h.nextFaultAt > 0 {
+			faults[h.nextFaultAt] = true
+			h.nextFaultAt = 0
 		}
 		if slowOK && h.nextRefreshFault {
 			faults[0] = true
